@@ -118,6 +118,29 @@ def go_combos(rng, spec, L_unused):
         o["fpath"] = fpath
         names = [x for l in leaves for x in (l["T"], l["A"])]
         add_lens("join", {"optic": o, "kind": "lens", "outer_path": leaves[0]["path"]}, names, leaves[-1]["A"], expr)
+    # ---- the same chains behind a first component that is NOT a field lens (an identity BiMap over the struct-typed
+    #      field: a lens that can only hand out copies), left-nested as above, and the right-nested association of the
+    #      plain chain: Join is associative in what it reads and writes
+    for leaves, fpath in chains[:3]:
+        A0 = leaves[0]["A"]
+        if A0 in local:
+            continue
+        expr = "optics.BiMap(%s, ident[%s], ident[%s])" % (leaf_go(leaves[0]), A0, A0)
+        o = {"o": "bimap", "x": leaf_json(leaves[0], []), "code": 0, "B": A0, "fpath": []}
+        for l in leaves[1:]:
+            expr = "optics.Join(%s, %s)" % (expr, leaf_go(l))
+            o = {"o": "join", "a": o, "b": leaf_json(l, [])}
+        o["fpath"] = fpath
+        names = [x for l in leaves for x in (l["T"], l["A"])]
+        add_lens("join-behind-bimap", {"optic": o, "kind": "lens", "outer_path": leaves[0]["path"]}, names, leaves[-1]["A"], expr)
+        if len(leaves) >= 3:
+            expr = leaf_go(leaves[-1])
+            o = leaf_json(leaves[-1], [])
+            for l in reversed(leaves[:-1]):
+                expr = "optics.Join(%s, %s)" % (leaf_go(l), expr)
+                o = {"o": "join", "a": leaf_json(l, []), "b": o}
+            o["fpath"] = fpath
+            add_lens("join-right", {"optic": o, "kind": "lens", "outer_path": leaves[0]["path"]}, names, leaves[-1]["A"], expr)
     # ---- BiMap / Getter / Setter with the involution xorBytes, BiMapS/B/I/F
     cands = [e for e in inline if leaf_for(spec, T, e, rng)]
     rng.shuffle(cands)
